@@ -39,8 +39,9 @@ func excludedBy(c Case, model *cypher.RegularQuery) string {
 // findingOpen: is the finding listed as open (known_findings.json / known_findings.d)? The development
 // aids can assume that every predicate's finding is open (VERIF_C03_ASSUME_OPEN=1).
 func findingOpen(id string) bool {
-	if os.Getenv("VERIF_C03_ASSUME_OPEN") != "" {
-		return true
+	if v := os.Getenv("VERIF_C03_ASSUME_OPEN"); v != "" {
+		// "1": every finding; "-<id>": every finding except one (to probe whether a predicate is still needed)
+		return v != "-"+id
 	}
 	return evid.R != nil && evid.R.KnownOpen(id)
 }
